@@ -110,11 +110,11 @@ def bursts_to_reads(cuts, total, read=READ):
     return reads
 
 # ------------------------------------------------------------------ real_wire
-def _session(profile, base):
+def _session(profile, base, sax=False):
     from ncclient import manager
     from ncclient.transport.unixSocket import UnixSocketSession
     from ncclient.transport.session import NotificationHandler, NetconfBase, SessionListener
-    dh = manager.make_device_handler({'name': profile})
+    dh = manager.make_device_handler({'name': profile, 'use_filter': True} if sax else {'name': profile})
     ses = UnixSocketSession(dh)
     ses._connected = True
     if base == 11:
@@ -125,18 +125,36 @@ def _session(profile, base):
         def callback(self, root, raw): pass
         def errback(self, err): errs.append(err)
     ses.add_listener(Watch())
+    if sax:
+        # device_params use_filter=True: the profile's own parser (Junos: the streaming SAX filter), installed as
+        # SSHSession.connect installs it once the session is established
+        ses.parser = dh.get_xml_parser(ses)
     m = manager.Manager(ses, dh, timeout=5)
     m.async_mode = True
     return ses, m, errs
 
+FILTER = '<data><x><i/></x></data>'        # selects every element of reply_text: the filtered reply is the whole reply
+
+def xml_shape(text):
+    """independent reading of a message (ElementTree): (tag, attributes, text, children), white space between elements dropped"""
+    import xml.etree.ElementTree as ET
+    def c(e):
+        return (e.tag, tuple(sorted(e.attrib.items())), (e.text or '').strip(), tuple(c(k) for k in e), (e.tail or '').strip())
+    try:
+        return c(ET.fromstring(text.encode() if isinstance(text, str) else text))
+    except Exception as e:
+        return ('not well-formed', type(e).__name__)
+
 def run_wire(case):
     """-> None or (what, sig)"""
-    ses, m, errs = _session(case['profile'], case['base'])
+    ses, m, errs = _session(case['profile'], case['base'], bool(case.get('sax')))
     nreq = 1 + max([x[1] for x in case['msgs'] if x[0] == 'reply'] or [-1])
     rpcs, ids = {}, {}
+    filtered = set(case.get('filtered') or [])    # requests issued with filter_xml (streaming-filter mode only)
     def need(k):
         if k not in rpcs:
-            rpcs[k] = m.get(); ids[k] = rpcs[k].id
+            rpcs[k] = m.rpc('<get-x xmlns="urn:example:x"/>', filter_xml=FILTER) if k in filtered else m.get()
+            ids[k] = rpcs[k].id
             return True
         return False
     if not case.get('lazy'):
@@ -192,8 +210,14 @@ def run_wire(case):
                 if r.error is not None:
                     return ('%s: request %d failed with %s in a history of replies and notifications only' % (where, i, type(r.error).__name__), 'wire_request_failed')
                 raw = getattr(r.reply, 'xml', None)
-                if raw is None or raw.strip() != t:
-                    return ('%s: request %d completed with %s instead of its own reply' % (where, i, _short(raw)), 'wire_foreign_reply')
+                if i in filtered and raw is not None:
+                    # the filter selects every element of the reply: the same document up to white space between elements
+                    if xml_shape(raw) != xml_shape(t[len(DECL):] if t.startswith(DECL) else t):
+                        return ('%s: request %d (issued with a filter that selects the whole reply) completed with %s (%d octets; %s) instead of its own reply (%d octets)'
+                                % (where, i, _short(raw), len(raw), xml_shape(raw)[:2] if xml_shape(raw)[0] == 'not well-formed' else 'well-formed', len(t)), 'wire_foreign_reply')
+                elif raw is None or raw.strip() != t:
+                    return ('%s: request %d completed with %s (%d octets%s) instead of its own reply (%d octets)'
+                            % (where, i, _short(raw), len(raw or ''), '' if raw is None or xml_shape(raw)[0] != 'not well-formed' else ', not well-formed', len(t)), 'wire_foreign_reply')
         if errs:
             return ('%s: an error was broadcast to the listeners: %r' % (where, errs[0]), 'wire_errback')
         if not m.connected:
@@ -258,7 +282,74 @@ def gen_wire(rng):
         reads = [total]
     case['reads'] = reads
     case['style'] = style
+    if case['profile'] == 'junos' and rng.random() < 0.7:
+        # streaming-filter mode (device_params use_filter=True): same histories, same oracle; some requests carry a filter
+        case['sax'] = True
+        fl = [k for k in range(nreq) if rng.random() < 0.4]
+        if fl: case['filtered'] = fl
     return case
+
+def gen_wire_sax(rng):
+    """a generated history for the Junos profile in streaming-filter mode, reads cut at random places of the messages (so
+    that the read completing one message ends somewhere inside the next one)"""
+    case = gen_wire(rng)
+    case['profile'] = 'junos'; case['sax'] = True
+    nreq = 1 + max([x[1] for x in case['msgs'] if x[0] == 'reply'] or [-1])
+    fl = [k for k in range(nreq) if rng.random() < 0.4]
+    case.pop('filtered', None)
+    if fl: case['filtered'] = fl
+    if rng.random() < 0.6:
+        stream, lay = layout(case)
+        cuts = []
+        for kind, i, t, a, b in lay:
+            cuts += [a + rng.randrange(1, b - a) for _ in range(rng.choice([1, 1, 2]))]
+        case['reads'] = bursts_to_reads(cuts, len(stream), rng.choice([READ, READ, 1 << 20]))
+        case['style'] = 'inside'
+    return case
+
+def headshare_cases():
+    """Deterministic family: a message that needs more than one read (notification, reply, reply to a request with a
+    filter) is completed by a read that ALSO carries the first e octets of the message behind it (e from one octet up to
+    the middle of that message's terminator); the rest of the second message and a closing notification follow.  Junos in
+    streaming-filter mode (use_filter=True; the parser object changes between messages) for both framings, and every
+    other profile in turn."""
+    out, pi = [], 0
+    kinds = {'notif': lambda size: ['notif', 0, size, 0], 'reply': lambda size: ['reply', 0, size], 'freply': lambda size: ['reply', 0, size]}
+    others = [p for p in PROFILES if p != 'junos']
+    for base in (10, 11):
+        for first in ('notif', 'reply', 'freply'):
+            for size, d in ((300, 150), (4500, 7), (9000, 300)):
+                for second in ('reply', 'freply', 'notif'):
+                    for ssize in (0, 5000):
+                        msgs = [kinds[first](size), kinds[second](ssize), ['notif', 0, 0, 1]]
+                        k = 0
+                        for j, x in enumerate(msgs):
+                            if x[0] == 'reply': x[1] = k; k += 1
+                        n = 0
+                        for x in msgs:
+                            if x[0] == 'notif': n += 1; x[1] = n
+                        fl = [x[1] for x, kd in zip(msgs, (first, second)) if kd == 'freply']
+                        for sax in (True, False):
+                            if not sax and fl: continue
+                            case0 = dict(check='real_wire', profile='junos' if sax else others[pi % len(others)], base=base, msgs=msgs,
+                                         style='headshare', lazy=bool(pi % 2))
+                            if sax: case0['sax'] = True
+                            if fl: case0['filtered'] = fl
+                            if base == 11: case0['chunk'] = (0, 4096, 1000)[pi % 3]
+                            pi += 1
+                            stream, lay = layout(case0)
+                            a2, b2 = lay[1][3], lay[1][4]
+                            term = len(DELIM) if base == 10 else 4
+                            # (chunked framing is put together by the default parser in either mode: fewer cut places)
+                            es = sorted({1, 5, 40, (b2 - a2) // 2, b2 - a2 - term - 1, b2 - a2 - term, b2 - a2 - 3} if sax and base == 10
+                                        else {1, 40, b2 - a2 - term, b2 - a2 - 3})
+                            for e in es:
+                                if not 0 < e < b2 - a2: continue
+                                case = dict(case0, msgs=[list(x) for x in msgs])
+                                # server bursts: [.. end of first - d) [end of first - d .. start of second + e) [rest)
+                                case['reads'] = bursts_to_reads([lay[0][4] - term - d, a2 + e], len(stream))
+                                out.append(case)
+    return out
 
 def tailshare_cases():
     """Deterministic family: a multi-read message (reply or notification) taken in 4096-octet reads up to d octets before
@@ -306,7 +397,7 @@ class Live(object):
     SSL socket is a minimal stand-in on the socketpair (harness/real_end.py: no handshake, everything else the library's code);
     'ssh+sax' additionally selects the profile's parser after the hello exchange as SSHSession.connect does, with
     device_params use_filter=True (Junos: the SAX parser)."""
-    def __init__(self, profile, base11=False, transport='unix'):
+    def __init__(self, profile, base11=False, transport='unix', behind=b''):
         from ncclient import manager
         from ncclient.transport.session import SessionListener
         self.cli, self.srv = socket.socketpair(socket.AF_UNIX, socket.SOCK_STREAM)
@@ -326,7 +417,9 @@ class Live(object):
             from ncclient.transport.unixSocket import UnixSocketSession
             self.ses = UnixSocketSession(self.dh); self.ses._socket = self.cli
         self.ses._connected = True
-        self.srv.sendall(hello(base11))
+        # `behind`: what the server writes right behind its <hello>, in the same write (it is in the socket before the
+        # session thread exists; base:1.0 framing, the server has not seen the client's hello)
+        self.srv.sendall(hello(base11) + behind)
         self.ses._post_connect(10)
         if transport == 'ssh+sax':
             self.ses.parser = self.dh.get_xml_parser(self.ses)
@@ -546,17 +639,22 @@ def _res(r):
 def run_live(case):
     """-> None or (what, sig).  case: profile, base, msgs, chunk, bursts (cut offsets of the server's writes), pause (s)"""
     profile = case['profile']
-    L = Live(profile, base11=case['base'] == 11, transport=case.get('transport', 'unix'))
+    # hello_with = j: the first j messages (notifications) are written together with the server's <hello>, before connect
+    hw = int(case.get('hello_with', 0))
+    if hw:
+        s0, l0 = layout(case)
+        if case['base'] != 10 or any(k != 'notif' for k, i, t, a, b in l0[:hw]): hw = 0
+    L = Live(profile, base11=case['base'] == 11, transport=case.get('transport', 'unix'), behind=s0[:l0[hw - 1][4]] if hw else b'')
     m = L.m
     case = dict(case, base=L.base)
     tag = '[%s, base 1.%d] ' % (profile, case['base'] - 10)
     try:
         m.async_mode = True
         nreq = 1 + max([x[1] for x in case['msgs'] if x[0] == 'reply'] or [-1])
-        early = int(case.get('early', 0))                 # leading messages written before any request is made
+        early = max(int(case.get('early', 0)), hw)        # leading messages written before any request is made
         stream0, lay0 = layout(case)
         if early:
-            if any(k == 'reply' for k, i, t, a, b in lay0[:early]): early = 0
+            if any(k == 'reply' for k, i, t, a, b in lay0[:early]): early = hw
         consumer_first = bool(case.get('consumer_first'))
         rpcs = {}
         sent_n = [t for k, i, t, a, b in lay0 if k == 'notif']
@@ -570,8 +668,8 @@ def run_live(case):
         th = None
         if consumer_first:
             th = threading.Thread(target=consume, daemon=True, name='c11-consumer'); th.start()
-        if early:
-            L.send(stream0[:lay0[early - 1][4]]); time.sleep(case.get('pause', 0.03))
+        if early > hw:
+            L.send(stream0[(lay0[hw - 1][4] if hw else 0):lay0[early - 1][4]]); time.sleep(case.get('pause', 0.03))
         for k in range(nreq):
             if case.get('filtered') and k == 0:
                 # Junos streaming-filter mode: this reply is cut down by the SAX parser while it is read
@@ -591,8 +689,10 @@ def run_live(case):
         if got != due:
             if None in got:
                 k = got.index(None)
-                return (tag + 'notification n%d was sent (the whole stream of %d octets has been written) but take_notification(True, %.0f) '
-                        'returned None; taken before: %r; connected=%s' % (k + 1, len(stream), HANG + 1.0, [_short(x) for x in got[:k]], m.connected), 'live_notif_missing')
+                missing = [_short(t) for t in due if t not in got]
+                return (tag + '%d notifications were sent (the whole stream of %d octets has been written%s) but take_notification(True, %.0f) '
+                        'returned None after %r: %r never came out; connected=%s' % (len(due), len(stream), ', the first %d in the same write as the server\'s <hello>' % hw if hw else '',
+                        HANG + 1.0, [_short(x) for x in got[:k]], missing, m.connected), 'live_notif_missing')
             return (tag + 'notifications taken %r, sent %r' % ([_short(x) for x in got], [_short(x) for x in due]), 'live_notif_mismatch')
         for k, i, t, a, b in lay:
             if k != 'reply': continue
@@ -632,6 +732,12 @@ def live_cases(rng, n_extra=0):
         stream, lay = layout(case)
         case['bursts'] = [lay[0][4] - (len(DELIM) if base == 10 else 4) - (300, 7, 0, 1)[pi % 4]]
         out.append(case)
+    # the connect window, free-running: the first notifications are written together with the server's <hello> (one write,
+    # before _post_connect is called), one more and a reply follow later
+    for pi, p in enumerate(PROFILES):
+        msgs = [['notif', 1, 0, 0], ['notif', 2, (0, 300)[pi % 2], pi % 2], ['notif', 3, 0, 0], ['reply', 0, 0], ['notif', 4, 0, 0]]
+        out.append(dict(check='real_live', profile=p, base=10, msgs=msgs, pause=0.02, consumer_first=bool(pi % 2), transport=TRANSPORTS[pi % 3],
+                        hello_with=1 + pi % 3, bursts=[]))
     for _ in range(n_extra):
         w = gen_wire(rng)
         case = dict(check='real_live', profile=w['profile'], base=w['base'], msgs=w['msgs'], pause=rng.choice([0.0, 0.01, 0.03]),
@@ -645,6 +751,7 @@ def live_cases(rng, n_extra=0):
             if rng.random() < 0.5: cuts.append(s)
         case['bursts'] = cuts[:8]
         if lay[0][0] == 'notif' and rng.random() < 0.5: case['early'] = 1
+        if lay[0][0] == 'notif' and case['base'] == 10 and rng.random() < 0.5: case['hello_with'] = 1
         out.append(case)
     return out
 
@@ -712,6 +819,9 @@ RUNNERS = {'real_wire': run_wire, 'real_live': run_live, 'real_take': run_take}
 
 def run_case(case):
     try:
+        if case['check'] == 'real_connect':
+            from . import c11_connect
+            return c11_connect.run_connect(case)
         return RUNNERS[case['check']](case)
     except Exception as e:
         import traceback
@@ -735,7 +845,8 @@ def parallel(cases, width):
 
 def all_cases(rng, tier):
     q = tier == 'quick'
-    wire = tailshare_cases() + [gen_wire(rng) for _ in range(1000 if q else 12000)]
+    wire = (tailshare_cases() + headshare_cases() + [gen_wire(rng) for _ in range(1000 if q else 12000)]
+            + [gen_wire_sax(rng) for _ in range(200 if q else 3000)])
     live = live_cases(rng, n_extra=10 if q else 150) + sax_cases()
     take = [dict(check='real_take', profile=p, base11=bool(i % 2), transport=TRANSPORTS[i % 3]) for i, p in enumerate(PROFILES)]
     take.append(dict(check='real_take', profile='junos', base11=False, transport='ssh+sax'))
@@ -743,7 +854,7 @@ def all_cases(rng, tier):
 
 def confirm(case, f):
     """timing-dependent families: a failure is reported only if it shows again"""
-    if f is None or case['check'] == 'real_wire':
+    if f is None or case['check'] in ('real_wire', 'real_connect'):
         return f
     for _ in range(2):
         f2 = run_case(case)
@@ -779,16 +890,26 @@ def check(ctx):
         key = {k: v for k, v in case.items()}
         ctx.count(case, nontrivial=True, key=key)
         ctx.hist('real_family', case['check']); ctx.hist('real_profile', case['profile'])
-        if case['check'] != 'real_wire': ctx.hist('real_transport', case.get('transport', 'unix'))
-        if case['check'] != 'real_take':
+        if case['check'] == 'real_connect':
+            pass
+        elif case['check'] != 'real_wire': ctx.hist('real_transport', case.get('transport', 'unix'))
+        if case['check'] == 'real_live': ctx.hist('real_live_hello_with', int(case.get('hello_with', 0)))
+        if case['check'] not in ('real_take', 'real_connect'):
             ctx.hist('real_base', case['base'])
             ctx.hist('real_history', '%d replies, %d notifications' % (sum(1 for x in case['msgs'] if x[0] == 'reply'), sum(1 for x in case['msgs'] if x[0] == 'notif')))
         if case['check'] == 'real_wire':
+            ctx.hist('real_wire_parser', 'junos use_filter=True (SAX), %d filtered request(s)' % len(case.get('filtered') or []) if case.get('sax') else 'default')
             ctx.hist('real_wire_style', case.get('style')); ctx.hist('real_wire_reads', min(len(case['reads']), 50) // 5 * 5)
         if f:
             ctx.fail(case, f[0], sig=None, expected='property C11 (see tools/harness/c11_real.py)', actual=f[0])
     for case in wire:
         record(case, run_case(case))
+    # the connect window under the deterministic scheduler (before the free-running families and sequential: the module-level names of ncclient.transport.session are
+    # rebound while a scheduled run is in progress)
+    from . import c11_connect
+    t1 = time.time()
+    c11_connect.check(ctx, tmodel, record)
+    ctx.extra['real_connect_s'] = round(time.time() - t1, 2)
     res = parallel(take + live, 14)
     for case, f in zip(take + live, res):
         f0, f = f, confirm(case, f)
@@ -823,6 +944,12 @@ def search(ctx):
         f = confirm(case, f)
         if f:
             return dict(case=case, what=f[0], sig=None, expected='property C11', actual=f[0])
+    from . import c11_connect
+    for case in c11_connect.specs(ctx.rng, 40):
+        for sc in c11_connect.dfs(case, 1, 12):
+            f = c11_connect.oracle(sc)
+            if f and f[1] != 'connect_harness_steps':
+                return dict(case=dict(case, decisions=list(sc.decisions_used)), what=f[0], sig=None, expected='property C11', actual=f[0])
     return None
 
 def replay(doc):
@@ -830,9 +957,14 @@ def replay(doc):
     lts.uninstall()
     case = doc['case']
     f = run_case(case)
+    if f is None and case['check'] in ('real_live', 'real_take'):
+        for _ in range(9):                       # free-running threads: a failure may need several connections to show
+            f = run_case(case)
+            if f: break
     print('case      :', {k: (v if k != 'reads' or len(v) < 40 else v[:40] + ['...']) for k, v in case.items()})
     print('expected  : property C11 holds (%s)' % {'real_wire': 'every notification completely received is returned by take_notification once, in order, intact; replies reach their requests; the session stays up',
                                                  'real_live': 'a blocking consumer gets every notification sent, in order; replies reach their requests; the session stays up',
-                                                 'real_take': 'Manager.take_notification(block, timeout) follows queue.Queue.get: None at once when non-blocking, None after the timeout when blocking, the notification otherwise'}[case['check']])
+                                                 'real_take': 'Manager.take_notification(block, timeout) follows queue.Queue.get: None at once when non-blocking, None after the timeout when blocking, the notification otherwise',
+                                                 'real_connect': 'every notification the server sent behind its <hello> is returned by take_notification once, in order, intact, under the given schedule of connecting thread / session thread / server; the capability exchange succeeds; the session stays up'}[case['check']])
     print('actual    :', f[0] if f else 'holds')
     return f is None
